@@ -126,12 +126,19 @@ def run_c14(prop, tier):
         jobs.append(dict(schema=schema, schema_seed=sd * 7 + i, seed=sd * 1000 + i, n=n if schema != "random" else n // 2, profile="C01",
                          handlers=1 + i % 3, clients=1 + i % 2, gomaxprocs=[1, 2, 4, 16][i % 4]))
     results = pmap(lambda j: record_session(vh, j), jobs)
+    # notifications applied directly to a cache, including ones it must reject (no event for a change that was not applied)
+    djobs = [dict(schema=["small", "kitchen", "random"][i % 3], schema_seed=sd * 5 + i, seed=sd * 100 + i, n=12 if tier == "quick" else 60)
+             for i in range(6 if tier == "quick" else 18)]
+    dres = pmap(lambda j: events_direct(vh, j), djobs)
     cases = [c for r in results for c in r["cases"] if c["mismatch"].get("prop") == "C14"]
-    verdict = findings.adjudicate(prop, cases, confirm_session(vh))
+    dcases = [c for r in dres for c in r["cases"]]
+    verdict = findings.adjudicate(prop, cases + dcases, lambda c: (confirm_direct(vh)(c) if "direct" in c else confirm_session(vh)(c)))
+    results = results + dres
     cov = {"states": dist + sum(r["states"] for r in results), "transitions": gen + sum(r["transitions"] for r in results),
            "mc_states": dist, "variant_refuted": "perHandler",
            "traces_validated_against_impl": len(results), "event_sequences_validated": sum(r["event_checks"] for r in results),
            "callbacks_validated": sum(r["callbacks"] for r in results), "transactions": sum(r["txns"] for r in results),
+           "rejected_notifications_exercised": sum(r.get("rejected_notifications", 0) for r in results),
            "samples": [r["sample_events"] for r in results if r.get("sample_events")][:2] or [{"note": "no handler saw three events"}],
            "known_findings_seen": verdict["known"],
            "rule": "1-3 recording handlers are registered on each real client's cache before any monitor; random histories (several rows per "
@@ -140,3 +147,30 @@ def run_c14(prop, tier):
     write_evidence(prop, tier, "model_checking", cov, time.time() - t0, violations=len(verdict["violations"]),
                    assumptions=["fewer events outstanding than the buffer holds (65536)", "no reconnect during the history"])
     return verdict
+
+
+def events_direct(vh, job):
+    with Scratch("evd") as sc:
+        rc, o, e = run([vh, "schema", "-schema", job["schema"], "-seed", str(job["schema_seed"]), "-o", sc.path("schema.abs.json")])
+        if rc != 0:
+            raise Broken("vh schema failed: " + e[-2000:])
+        rc, o, e = run([vh, "events-direct", "-schema", job["schema"], "-schema-seed", str(job["schema_seed"]), "-seed", str(job["seed"]),
+                        "-n", str(job["n"]), "-o", sc.path("trace.ndjson")], timeout=900)
+        if rc != 0:
+            raise Broken("vh events-direct failed: " + e[-3000:])
+        res = txnfam.validate_trace(sc.dir)
+        trace = txnfam.read_trace(sc.path("trace.ndjson"))
+        evs = [x for x in trace if x["ev"] == "events"]
+        res.update({"txns": 0, "cache_snapshots": 0, "monitors": 0, "methods": [], "sample": None,
+                    "event_checks": len(evs), "callbacks": sum(len(h) for x in evs for h in x["handlers"]),
+                    "rejected_notifications": sum(x.get("rejected", 0) for x in evs), "sample_events": None})
+        res["cases"] = [{"mismatch": m, "direct": job} for m in res["mismatches"] if m.get("prop") == "C14"]
+        return res
+
+
+def confirm_direct(vh):
+    def confirm(case):
+        r = events_direct(vh, case["direct"])
+        got = [c["mismatch"] for c in r["cases"] if c["mismatch"]["what"] == case["mismatch"]["what"]]
+        return got, None
+    return confirm
